@@ -207,11 +207,13 @@ def shipped_plan_lines(job):
     return lines, text
 
 
-def make_triples(ctx: Ctx, big: bool, focus_jobs=()):
+def make_triples(ctx: Ctx, big: bool, focus_jobs=(), extended=False):
+    """quick: 1 random plan of 45 commands per (job, environment); extended (something broke in a quick run): 2 of 70;
+    thorough: 3 of 110"""
     from lib import simenv
     rng = random.Random(ctx.seed + 2)
-    n_cmds = 110 if big else 45
-    plans_per = 3 if big else 1
+    n_cmds = 110 if big else (70 if extended else 45)
+    plans_per = 3 if big else (2 if extended else 1)
     triples = []
     k = 0
     for job in simenv.JOBS:
@@ -231,10 +233,12 @@ def make_triples(ctx: Ctx, big: bool, focus_jobs=()):
         lines, text = shipped_plan_lines(job)
         if text:
             # the HTTP API path: provider header -> environment -> run_plan (a BaselineEnvironmentProvider costs seconds)
-            short = text.split("\n---", 2)
-            body = "\n".join(short[-1].splitlines()[: (60 if big else 25)])
+            header, body = text.split("\n---", 1)
+            body_lines = body.splitlines()[: (60 if big else 25)]
+            while body_lines and (not body_lines[-1].strip() or "#" in body_lines[-1]):
+                body_lines.pop()          # (a plan must not end in a comment: open finding of C14)
             heavy.append({"id": "%s/baseline-provider/api" % job, "job": job, "env": {}, "plan": [],
-                          "baseline_plan": short[0] + "\n---" + short[1] + "\n---\n" + body.strip() + "\n", "heavy": True})
+                          "baseline_plan": header + "\n---\n" + "\n".join(body_lines).strip() + "\n", "heavy": True})
     noise = []
     for i in range(8 if big else 4):
         job = simenv.JOBS[rng.randrange(len(simenv.JOBS))]
@@ -248,7 +252,7 @@ def make_triples(ctx: Ctx, big: bool, focus_jobs=()):
 
 def make_schedules(ctx: Ctx, triples, heavy, noise, big: bool):
     rng = random.Random(ctx.seed + 3)
-    seeds_other = ["1", "4242", "987654321"] + (["7", "31337", "random"] if big else [])
+    seeds_other = ["1", "4242", "987654321"] + (["7", "31337", str(rng.randrange(1, 2 ** 32 - 1))] if big else [])
 
     def shuffled(ts, with_noise):
         ts = list(ts)
@@ -391,12 +395,14 @@ def detail_of(ctx: Ctx, mm, state):
     (a, _e1), (b, _e2) = parallel([({"kind": "alone", "triple": t, "state": [], "want": want}, "0"),
                                    ({"kind": "batch", "mode": s["mode"], "threads": s.get("threads", 8), "triples": s["triples"],
                                      "state": [], "want": want}, s["seed"])])
-    try:
-        x = a["detail"][tid]["%s:%d" % (field, idx)]
-        y = b["detail"][tid]["%s:%d" % (field, idx)]
-    except Exception:      # noqa
-        return None
-    return h_iso.json_diff(x, y, path="%s[%d]" % (field, idx))
+    key = "%s:%d" % (field, idx)
+    x = ((a or {}).get("detail", {}).get(tid) or {}).get(key)
+    y = ((b or {}).get("detail", {}).get(tid) or {}).get(key)
+    if x is None or y is None:
+        return ["%s[%d] exists alone: %s, under the schedule: %s (a run that stopped early has fewer items; see the error fields)"
+                % (field, idx, x is not None, y is not None)]
+    d = h_iso.json_diff(x, y, path="%s[%d]" % (field, idx))
+    return d or ["the second run of this schedule did not reproduce the difference (non-deterministic: threads / timing)"]
 
 
 # ------------------------------------------------------------------------------------------ router correspondence
@@ -471,14 +477,11 @@ def run(ctx: Ctx) -> int:
     model_ok, focus_modules = build_props(ctx, meta)
     state = [list(s) for s in meta["state"]] if meta else [list(s) for s in FALLBACK_STATE]
     focus_jobs = sorted({m.split(".")[-1] for m in focus_modules if ".specific." in m})
-    extended = bool(ctx.broken) and not ctx.thorough
-    if extended:
-        ctx.log("an obligation broke: isolation search with the thorough budget" + (" (focus: %s)" % focus_jobs if focus_jobs else ""))
-    big = ctx.thorough or extended
+    big = ctx.thorough
 
-    # 3. correspondence of the router model
+    # 3. correspondence of the router model (more cases when a proof obligation broke)
     triples, heavy, noise = make_triples(ctx, big, focus_jobs)
-    cases, rerrors, rdiffs = router_correspondence(ctx, router_cases(ctx, triples, big), model_ok)
+    cases, rerrors, rdiffs = router_correspondence(ctx, router_cases(ctx, triples, big or bool(ctx.broken)), model_ok)
     for e in rerrors:
         ctx.broken.append("router recording: " + e)
     for c, why in rdiffs:
@@ -488,7 +491,11 @@ def run(ctx: Ctx) -> int:
         ctx.broken.append("router hypothesis failed: events returned are not the primitive dispatchers' events in call order (%s)" % cid)
     ctx.log("router correspondence: %d cases, %d differences" % (len(cases), len(rdiffs)))
 
-    # 5. isolation search
+    # 5. isolation search (extended budget when a proof obligation or the correspondence broke)
+    extended = bool(ctx.broken) and not ctx.thorough
+    if extended:
+        ctx.log("something broke: isolation search with the extended budget" + (" (focus: %s)" % focus_jobs if focus_jobs else ""))
+        triples, heavy, noise = make_triples(ctx, big, focus_jobs, extended)
     schedules = make_schedules(ctx, triples, heavy, noise, big)
     iso = run_iso(ctx, triples, heavy, noise, schedules, state)
     (alias, _aerr), = parallel([({"kind": "aliasing"}, "0")])
@@ -533,9 +540,7 @@ def run(ctx: Ctx) -> int:
                                        for k, v in iso["ref"].get(sample_t["id"], {}).items()},
              "schedule": {"name": sample_s["name"], "mode": sample_s["mode"], "hashseed": sample_s["seed"],
                           "order": [t["id"] for t in sample_s["triples"]][:14] + ["..."]}},
-            case_summary(syn[0]) if syn else None,
-            case_summary(eng[-1]) if eng else None,
-        ],
+        ] + ([case_summary(syn[0])] if syn else []) + ([case_summary(eng[-1])] if eng else []),
         "traces_validated_against_impl": len(cases) if model_ok else 0,
         "correspondence": {
             "cases": len(cases), "differences": len(rdiffs), "histogram": dict(sorted(hist.items())),
@@ -563,7 +568,7 @@ def run(ctx: Ctx) -> int:
                     "dict); the property quantifies over runs, not over callers that edit handed-out specs, so this is "
                     "recorded as an observation, not as a violation.",
         },
-        "trusted_extra": [
+        "trusted_extra": ctx.cov.get("trusted_extra", []) + [
             "tools/tr_isolation.py (Python-ast reader: imports at any depth, attribute uses of dual-use modules, watched builtins, "
             "module/class-level assignments, global/nonlocal, memo decorators, mutable default arguments, import-time statements; "
             "shapes of DirectorySpecRepository.get/get_all and Spec.interpret) -- purely syntactic: dynamic imports, getattr-based "
@@ -588,14 +593,18 @@ def run(ctx: Ctx) -> int:
     # 6. verdict
     reported = 0
     seen = set()
+    chosen = []
     for mm in iso["mismatches"]:
-        s = mm["schedule"]
-        key = (s["name"], mm["diff"][0])
-        if key in seen or reported >= 4:
+        key = (mm["schedule"]["name"], mm["diff"][0])
+        if key in seen or len(chosen) >= 4:
             continue
         seen.add(key)
+        chosen.append(mm)
+    with ThreadPoolExecutor(4) as ex:
+        details = list(ex.map(lambda m: detail_of(ctx, m, state), chosen[:2])) + [None] * len(chosen)
+    for mm, detail in zip(chosen, details):
+        s = mm["schedule"]
         reported += 1
-        detail = detail_of(ctx, mm, state)
         t = iso["by_id"].get(mm["triple"]) if mm["triple"] else None
         ctx.violation(
             "impl-counterexample",
